@@ -360,7 +360,7 @@ class bptk():
 
 
     def begin_session(self, scenarios, scenario_managers, settings={},agents=[], agent_states=[], agent_properties=[],
-                       agent_property_types=[], individual_agent_properties=[], equations=[],starttime=0.0, dt=None):
+                       agent_property_types=[], individual_agent_properties=[], equations=[],starttime=None, dt=None):
         """Begins a session to allow stepwise simulation.
 
         This resets the internal session cache, there can only be one session at any time.
@@ -388,7 +388,7 @@ class bptk():
                 List of individual agent properties
             equations: list.
                 Names of equations to plot (System Dynamics).
-            starttime: Float (Default=0.0)
+            starttime: Float (Default=None, i.e. the start time of the selected scenarios)
                 Timestep at which to start.
             dt: Dt (Default=None, i.e. the dt of the selected scenarios)
                 Deltatime.
@@ -454,12 +454,16 @@ class bptk():
                                 scenario_object.configure_settings(settings[manager.name][scenario])
                         if dt is None:
                             dt = scenario_object.dt # step through the session on the scenario's own time grid
-                        starttime_ = max(starttime_, scenario_object.starttime)
+                        # without an explicit start time the session starts where the scenario starts (also before time 0)
+                        starttime_ = scenario_object.starttime if starttime_ is None else max(starttime_, scenario_object.starttime)
                         stoptime_ = min(stoptime_,scenario_object.stoptime) if stoptime_ is not None else scenario_object.stoptime
                         self.reset_scenario_cache(scenario_manager=manager.name, scenario=scenario)
 
         if dt is None:
             dt = 1.0
+
+        if starttime_ is None:
+            starttime_ = 0.0
 
         self.session_state = {
             "scenarios": scenarios,
